@@ -247,4 +247,4 @@ func runShutdown(c ShutdownCase) *vkit.Outcome {
 
 var propShutdown = vkit.NewProp([]string{P}, "c09shutdown", genShutdown, runShutdown)
 
-func TestC09Shutdown(t *testing.T) { propShutdown.Check(t) }
+func TestC09Shutdown(t *testing.T) { propShutdown.CrashFile = true; propShutdown.Check(t) }
